@@ -96,3 +96,88 @@ def json_falsy_argument_containers(sx, transport):
         problems.append('HTTP status %r' % (rec.start_response[0][0],))
     sx.observe('problems', problems)
     return not problems
+
+
+# ---------------------------------------------------------------- auxiliary methods of a faulted request
+from spyne import Application, Service, rpc
+from spyne.model.primitive import Integer, Unicode
+from spyne.auxproc.sync import SyncAuxProc
+from spyne.protocol.json import JsonDocument
+from spyne.protocol.xml import XmlDocument
+from spyne.protocol.soap import Soap11
+from spyne.protocol.http import HttpRpc
+from spyne.server.wsgi import WsgiApplication
+
+RAN = []
+
+
+class Primary(Service):
+    @rpc(Unicode, Integer(ge=0, le=9, min_occurs=1, nillable=False), _returns=Integer)
+    def place(ctx, who, qty):
+        RAN.append('primary')
+        return qty
+
+
+class Audit(Service):
+    __aux__ = SyncAuxProc()
+
+    @rpc(Unicode, _returns=Integer)     # a looser signature: accepts what the primary method refuses
+    def place(ctx, who):
+        RAN.append('aux')
+        return 0
+
+
+AUX_APPS = {}
+AUX_REQ = {
+    'json': lambda body: (('{"place": %s}' % body).encode(), {}),
+    'xml': lambda body: (('<place xmlns="tns">%s</place>' % body).encode(), {}),
+    'soap11': lambda body: (('<s:Envelope xmlns:s="%s"><s:Body><place xmlns="tns">%s</place></s:Body></s:Envelope>'
+                             % (P.SOAP_ENV, body)).encode(), {'CONTENT_TYPE': 'text/xml'}),
+    'http': lambda body: (b'', {'REQUEST_METHOD': 'GET', 'PATH_INFO': '/place', 'QUERY_STRING': body}),
+}
+AUX_BODIES = {   # kind -> per protocol family argument spelling
+    'valid': {'json': '{"who": "x", "qty": 5}', 'xml': '<who>x</who><qty>5</qty>', 'http': 'who=x&qty=5'},
+    'out_of_range': {'json': '{"who": "x", "qty": 77}', 'xml': '<who>x</who><qty>77</qty>', 'http': 'who=x&qty=77'},
+    'corrupted': {'json': '{"who": "x", "qty": "abc"}', 'xml': '<who>x</who><qty>abc</qty>', 'http': 'who=x&qty=abc'},
+    'deleted': {'json': '{"who": "x"}', 'xml': '<who>x</who>', 'http': 'who=x'},
+    'emptied': {'json': '{"who": "x", "qty": null}', 'xml': '<who>x</who><qty/>', 'http': 'who=x&qty='},
+}
+
+
+def _aux_app(proto):
+    if proto not in AUX_APPS:
+        inp = {'json': JsonDocument, 'xml': XmlDocument, 'soap11': Soap11, 'http': HttpRpc}[proto](validator='soft')
+        outp = {'json': JsonDocument, 'xml': XmlDocument, 'soap11': Soap11, 'http': JsonDocument}[proto]()
+        AUX_APPS[proto] = Application([Primary, Audit], 'tns', in_protocol=inp, out_protocol=outp)
+    return AUX_APPS[proto]
+
+
+@harness('C10', params=['json', 'xml', 'soap11', 'http'],
+         functions=['spyne.server.wsgi.WsgiApplication.handle_error', 'spyne.server.wsgi.WsgiApplication.handle_rpc',
+                    'spyne.auxproc._base.process_contexts'],
+         bounds={'requests': 'a method with an auxiliary (SyncAuxProc) twin of looser signature; the mandatory bounded argument '
+                             'valid / out of range / corrupted / deleted / emptied; chunked and unchunked WSGI'})
+def auxiliary_functions_of_faulted_requests(sx, proto):
+    """a request answered with a fault runs no user function at all - neither the primary method nor its auxiliary
+    twins; a valid request runs each exactly once"""
+    import io
+    kind = sx.choose('request', sorted(AUX_BODIES))
+    chunked = sx.choose('chunked', [True, False])
+    app = _aux_app(proto)
+    fam = 'xml' if proto == 'soap11' else proto
+    body, env = AUX_REQ[proto](AUX_BODIES[kind][fam])
+    del RAN[:]
+    w = WsgiApplication(app, chunked=chunked)
+    environ = {'REQUEST_METHOD': 'POST', 'PATH_INFO': '/', 'QUERY_STRING': '', 'SERVER_NAME': 'localhost',
+               'SERVER_PORT': '80', 'wsgi.url_scheme': 'http', 'wsgi.input': io.BytesIO(body),
+               'CONTENT_LENGTH': str(len(body)), 'CONTENT_TYPE': 'text/plain'}
+    environ.update(env)
+    status = []
+    out = b''.join(w(environ, lambda s, h, e=None: status.append(s)))
+    sx.observe('status', status)
+    sx.observe('ran', list(RAN))
+    if kind == 'valid':
+        return status[0].startswith('200') and sorted(RAN) == ['aux', 'primary']
+    if not status or status[0].startswith('200'):
+        return False            # (also: a non-conformant request must be refused under soft validation)
+    return RAN == []
